@@ -1334,8 +1334,13 @@ def step (s : State) (toks : List String) : State × String :=
       -- `l`: like `u`, the server's identity handed in as a literal (same key, address, URL; no `ID`):
       -- which server is asked is decided by the identity given, not by its deprecated `ID` field
       if cs.isEmpty || cs.any (fun c => c != 'u' && c != 'd' && c != 'l') then (s, "bad-op") else
-      let res := sendToAll false (fun (st : Unit) (c : Char) => (st, if c = 'u' || c = 'l' then some c else none)) () cs
-      let cells := (cs.zip res.2.1).map fun (c, r) => s!"{c}:" ++ (match r with | some _ => "own" | none => "nil")
+      -- every `Send` goes through the client's connection table (`mSend`, keyed by the destination itself:
+      -- `c14_connection_table_reply_from_asked_destination`); destinations = roster positions
+      let res := sendToAll false (fun (st : MCl Nat Nat) (e : Char × Nat) =>
+          let r := mSend id (keepOf _client) st e.2 (e.1 = 'u' || e.1 = 'l')
+          (r.1, r.2.map fun j => (e.2, j))) {} (cs.zip (List.range cs.length))
+      let cells := (cs.zip res.2.1).map fun (c, r) => s!"{c}:" ++
+        (match r with | some (i, j) => if i = j then "own" else s!"of{j}" | none => "nil")
       -- the first `u` is the server the `ws` / `cstate` ops talk to: one answered `Send` of this client object
       let s' := if cs.contains 'u' || cs.contains 'l' then sendThrough s _client "C14Who" [] true else s
       (s', s!"len={res.2.1.length} " ++ " ".intercalate cells ++ (if res.2.2 = 0 then " noerr" else " err"))
